@@ -69,6 +69,8 @@ def checkMulticlientCfg (cfg : Option MultiClientCfg) (portName : Str) (itf : In
           match itf.events.filter (fun e => e.name = c.releaseEvent) with
           | [] => mcErr
           | release :: _ =>
+            -- clients call the release event: an out-event is refused (after the repair of D-12)
+            if release.dir ≠ .in_ then mcErr else
             .ok (some { claimEvent := claim, grant := en.fqn ++ [v], releaseEvent := release,
                         grantIndex := (en.fields.findIdx? (fun j => match j with | .str t => t = v | _ => false)).getD 0 })
       | .ok _ => mcErr
